@@ -51,6 +51,44 @@ def helper_check(ctx, d):
                    dict(call='pyIRDecoder.decode_pronto_code', pronto=p, disabled_afterwards=changed, raised=err))
 
 
+def renderings_check(ctx, d, n):
+    """C11: a frame handed over as a list, a tuple or a Pronto hex string is the same key press: the Pronto rendering carries its
+    carrier, so it must be decoded by the same protocol as the list with that carrier."""
+    from pyIRDecoder import pronto
+    import protoinfo
+    rng = ctx.rng
+    ps = protoinfo.all_protocols()
+    rng.shuffle(ps)
+    for p in ps[:n]:
+        k = dr.key_frames(p, rng)
+        if not k or p['frequency'] <= 0:
+            continue
+        f = k[1][0]
+        if len(f) % 2:
+            continue
+        try:
+            hexs = pronto.rlc_to_pronto(p['frequency'], list(f))
+            freq2, seqs = pronto.pronto_to_rlc(hexs)
+            flat = [x for sq in seqs for x in sq]
+        except Exception:  # noqa   (conversion defects are C15's business)
+            continue
+        outs = []
+        for form in (('list', flat, freq2), ('tuple', tuple(flat), freq2), ('pronto', hexs, 0)):
+            d.reset()
+            d.set_enabled(set(d.names))
+            try:
+                c = d.mod.decode(form[1], form[2]) if form[0] != 'pronto' else d.mod.decode(form[1])
+                outs.append(None if c is None else (c.decoder.__class__.__name__, d.code_key(c)))
+            except Exception as e:  # noqa
+                outs.append(('raise', type(e).__name__))
+            vlib.drain_workers()
+        d.reset()
+        ctx.count_eval(key=('renderings', p['name'], tuple(f[:8])))
+        if not (outs[0] == outs[1] == outs[2]):
+            ctx.report('dispatcher', 'renderings of one signal decode differently', dict(protocol=p['name']),
+                       dict(protocol=p['name'], params=k[0], pronto=hexs, as_list=str(outs[0]), as_tuple=str(outs[1]), as_pronto=str(outs[2])))
+
+
 def run(ctx, prop='C10'):
     vlib.import_repo()
     vlib.ensure_static_build()
@@ -72,6 +110,8 @@ def run(ctx, prop='C10'):
         ORACLES[prop](ctx, d, r)
     if prop == 'C10':
         helper_check(ctx, d)
+    if prop == 'C11':
+        renderings_check(ctx, d, 40 if ctx.tier == 'quick' else 173)
     bad = dr.correspondence(ctx, recs)
     if bad is None:
         ctx.report('correspondence', 'model-eval-failed', {}, dict(theorem='PyIR.Ctl.DispatchRun.run_dispatch evaluation'),
